@@ -46,7 +46,7 @@ ASSUMPTIONS = [
 ]
 FAULT_KINDS = ["same_name_other_template", "snapped_coordinates", "repeat_vector", "reused_receiver",
                "slack_pairs>=2", "second_objective_object",
-               "other_objective_configuration",
+               "other_objective_configuration", "caller_threads_interleaved",
                "failed_decode_between_valid_ones", "vector_length_varies",
                "seed_derivation_failed_once",
                "reevaluate_after_other_instance"]
@@ -65,10 +65,14 @@ def plan(tier: str) -> list:
         return [{"name": "decode", "n": 6000, "hardness_p": 0.0,
                  "max_ops": 20},
                 {"name": "objectives", "n": 800, "hardness_p": 0.5,
-                 "max_ops": 12}]
+                 "max_ops": 12},
+                {"name": "threads", "n": 400, "hardness_p": 0.0,
+                 "max_ops": 3, "threads": True}]
     return [{"name": "decode", "n": 400000, "hardness_p": 0.0, "max_ops": 30},
             {"name": "objectives", "n": 40000, "hardness_p": 0.5,
-             "max_ops": 20}]
+             "max_ops": 20},
+            {"name": "threads", "n": 20000, "hardness_p": 0.0,
+             "max_ops": 3, "threads": True}]
 
 
 def warmup() -> None:
@@ -159,7 +163,35 @@ def _dims(template: dict) -> tuple[int, int]:
     return n, min(int(inst.lower_bound_bins), n)
 
 
+def _generate_threads(rng: random.Random, batch: dict) -> dict:
+    """Two caller threads decoding at the same time with ONE decoder object
+    (it keeps no state between calls; the bundled experiment shares it through
+    the Problem object) or with a decoder each."""
+    while True:
+        template = gen_template(rng)
+        if "resource" not in template:
+            n_items, min_bins = _dims(template)
+            if n_items > min_bins and n_items <= 12:
+                break
+    k = rng.choice([0, 1, 2])
+    d = 2 * (n_items - min_bins) + 2 * k
+    threads = []
+    for _ in range(2):
+        xs = []
+        for _ in range(rng.randint(1, batch["max_ops"])):
+            x, _how = gen_vec(rng, d, xs)
+            xs.append(x)
+        threads.append({"xs": [[fhex(v) for v in x] for x in xs], "picks": [
+            [rng.random(), rng.random(), rng.random()]
+            for _ in range(rng.choice([1, 2, 4, 8]))]})
+    return {"template": template, "k": k, "ops": [],
+            "hardness": {"max_fes": 20, "n_runs": 1},
+            "threads": threads, "share_decoder": rng.random() < 0.7}
+
+
 def generate(rng: random.Random, batch: dict, depth: int = 0) -> dict:
+    if batch.get("threads"):
+        return _generate_threads(rng, batch)
     doc = _generate(rng, batch)
     if depth == 0 and "resource" not in doc["template"] \
             and rng.random() < 0.12:
@@ -333,9 +365,76 @@ def _find_witness(W, H, items, min_bins, seed: int, budget: int):
     return None, best
 
 
+def _execute_threads(doc: dict) -> dict:
+    """Every instance a thread decodes must be the one it gets alone."""
+    import os
+
+    import numpy as np
+    from moptipyapps.binpacking2d.instgen.inst_decoding import InstanceDecoder
+    from moptipyapps.binpacking2d.instgen.instance_space import InstanceSpace
+    res = core.new_result()
+    tdoc = doc["template"]
+    name = "t" + core.digest(tdoc)[:10]
+    pre = core.Preempt((os.sep + "moptipyapps" + os.sep, ))
+    n_items, min_bins = _dims(tdoc)
+    d = 2 * (n_items - min_bins) + 2 * int(doc["k"])
+
+    def bodies():
+        template = packgen.build_instance({**tdoc, "name": name})
+        space = InstanceSpace(template)
+        shared = InstanceDecoder(space) if doc.get("share_decoder") else None
+        out = []
+        for th in doc["threads"]:
+            xs = [np.array(_vec(x, d), dtype=float) for x in th["xs"]]
+
+            def body(xs=xs):
+                dec = shared if shared is not None else InstanceDecoder(space)
+                got = []
+                for x in xs:
+                    y: list = []
+                    dec.decode(x, y)
+                    got.append(y[0].to_compact_str())
+                return got
+            out.append(body)
+        return out
+    alone, points = [], []
+    for ti, th in enumerate(doc["threads"]):
+        out, table = pre.profile(bodies()[ti])
+        alone.append(out)
+        points.append(core.Preempt.pick_points(table, th["picks"]))
+        res["ops"] += len(th["xs"])
+    got, switches = pre.run(bodies(), points)
+    core.bump(res["faults"], "caller_threads_interleaved")
+    if doc.get("share_decoder"):
+        core.bump(res["probes"], "threads_share_decoder")
+    if switches >= 2:
+        core.bump(res["probes"], "thread_switches>=2")
+    res["events"].append(["threads", switches,
+                          [core.digest(a)[:16] for a in alone]])
+    for i, (a, g) in enumerate(zip(alone, got)):
+        if isinstance(g, BaseException):
+            core.violation(res, "decode-raised-or-invalid",
+                           f"thread {i}: {type(g).__name__}: {g} while "
+                           f"another thread decoded ({switches} switches)")
+            break
+        if a != g:
+            core.violation(
+                res, "concurrent-decode-differs-from-sequential",
+                f"thread {i}: decoded {g} while another thread decoded "
+                f"({switches} switches, shared decoder: "
+                f"{bool(doc.get('share_decoder'))}), {a} alone; template "
+                f"{tdoc}")
+            break
+    res["sim_time"] = 0.0
+    res["nontrivial"] = switches >= 1
+    return res
+
+
 def execute(doc: dict) -> dict:
     """Optionally followed by a twin: a different template with the SAME name,
     with its own space, decoder and objective objects."""
+    if doc.get("threads"):
+        return _execute_threads(doc)
     tdoc0 = doc["template"]
     # generated instances are used as templates again: names ending in "n"
     name = None if "resource" in tdoc0 else "t" + core.digest(tdoc0)[:10] \
@@ -680,6 +779,14 @@ def _execute_one(doc: dict, tname) -> dict:
 # ------------------------------------------------------------------ shrinking
 
 def reductions(doc: dict):
+    if doc.get("threads"):
+        for i, th in enumerate(doc["threads"]):
+            for key, mn in (("picks", 0), ("xs", 1)):
+                for cand in core.list_deletions(th[key], mn):
+                    ths = [dict(t) for t in doc["threads"]]
+                    ths[i][key] = cand
+                    yield {**doc, "threads": ths}
+        return
     if doc.get("twin") is not None:
         yield {k: v for k, v in doc.items() if k != "twin"}
         for cand in reductions(doc["twin"]):
